@@ -2,23 +2,30 @@
 package main
 
 import (
+	"fmt"
+	"time"
+
+	"verifh/lib"
 	"verifh/luagen"
 	"verifh/luaprop"
 )
 
+var cfgForExtra *luaprop.Config
+
 func main() {
 	f := luagen.CoreFeatures()
 	f.Errors, f.FaultPct, f.Closures, f.Meta, f.Coroutines, f.Funcs, f.Goto = 16, 75, 4, 3, 3, 4, 1
-	luaprop.Main(&luaprop.Config{
+	cfgForExtra = &luaprop.Config{
 		Prop: "C05",
 		Rule: "generated programs dominated by protected calls (pcall/xpcall, nested) whose bodies raise error() with values of every type and level 0/1/2, runtime faults (index/call/arith/compare/concat), assert, " +
 			"also from nested calls, metamethods and coroutines; after each the program keeps using the caller's locals, upvalues and tables; traces compared with the reference evaluator; " +
 			"non-trivial = at least 5 emitted rows or an error outcome; distinct by Gallina term",
 		Modes:     []luaprop.Mode{{Name: "errors", Features: f, Weight: 1}},
-		NQuick:    220,
+		NQuick:    120,
 		NThorough: 6000,
 		Corpus:    corpus,
 		Isolate:   true,
+		Extra:     faultEnumeration,
 		KF: func(uses map[string]int, src string) []string {
 			var k []string
 			if uses["fault-error-level2"] > 0 {
@@ -26,7 +33,8 @@ func main() {
 			}
 			return k
 		},
-	})
+	}
+	luaprop.Main(cfgForExtra)
 }
 
 var corpus = []string{
@@ -39,4 +47,100 @@ var corpus = []string{
 	`local co = coroutine.create(function() error("in co") end); emit(coroutine.resume(co)); emit(coroutine.status(co)); emit(pcall(coroutine.wrap(function() error({}) end)))`,
 	`emit(pcall(function() assert(false) end)); emit(pcall(function() assert(nil, "msg") end)); emit(pcall(assert, 1, 2, 3)); emit(select('#', pcall(function() assert(false) end)))`,
 	`local function thrower() error("x") end; for i = 1, 3 do local ok, e = pcall(thrower); emit(i, ok, e) end; local n = 0; while n < 3 do n = n + 1; pcall(error, n) end; emit(n)`,
+}
+
+
+// faultEnumeration: (a) host-call faults: for generated programs the k-th emit call raises, for every
+// k up to the fault-free number of emit calls (cap per tier) — compared exactly with the evaluator
+// under the same injection; (b) instruction-boundary faults: a one-shot done-context at the k-th
+// dispatch poll of the main thread, for every k up to the fault-free poll count (sampled above the
+// cap) — checked against the property's own predicates on the Go side: nothing escapes as a Go
+// panic, the injected error is delivered at most once, an uncaught fault leaves a prefix of the
+// fault-free trace, and the same state then has an empty stack and runs a fixed epilogue.
+func faultEnumeration(w *lib.Writer, tier string, seed uint64) {
+	cfg := cfgForExtra
+	nprog, capEmit, capInstr := 24, 8, 60
+	if tier == "thorough" {
+		nprog, capEmit, capInstr = 400, 40, 600
+	}
+	for i := 0; i < nprog; i++ {
+		idx := 100000 + i
+		prog, mode := luaprop.Gen(cfg, seed, idx)
+		src := luagen.PrintLua(prog)
+		base := luagen.RunIsolated(src, 20*time.Second, &luagen.RunOptions{InstrFault: 1 << 40})
+		if base.GoFail != "" {
+			continue // reported by the ordinary run of this generator already
+		}
+		coqProg := luagen.CoqBlock(prog)
+		// (a) host-call faults
+		e := len(base.Trace)
+		for k := 1; k <= e && k <= capEmit; k++ {
+			str := (k+i)%2 == 0
+			out := luagen.RunIsolated(src, 20*time.Second, &luagen.RunOptions{EmitFault: k, FaultString: str})
+			coq := fmt.Sprintf("CProgF %d %v %s %s", k, str, coqProg, out.Coq())
+			if out.GoFail != "" {
+				coq = "CProg [] (Outcome [] (OOk []))"
+			}
+			id := w.Add(lib.Case{Input: map[string]any{"src": src, "seed": seed, "idx": idx, "mode": mode, "emit_fault": k, "fault_string": str},
+				Observed: out.Summary(), Class: "emit-fault", Nontrivial: true, Coq: coq})
+			if out.GoFail != "" {
+				w.GoFail(id, out.GoFail)
+			}
+		}
+		// (b) instruction-boundary faults
+		polls := base.Polls
+		step := 1
+		if polls > capInstr {
+			step = polls / capInstr
+		}
+		for k := 1; k <= polls; k += step {
+			out := luagen.RunIsolated(src, 20*time.Second, &luagen.RunOptions{InstrFault: k, Epilogue: true})
+			w.Meta.GoOnlyChecked++
+			what := out.GoFail
+			if what == "" {
+				what = instrPredicates(base, out)
+			}
+			if what != "" {
+				id := w.Add(lib.Case{Input: map[string]any{"src": src, "seed": seed, "idx": idx, "mode": mode, "instr_fault": k},
+					Observed: out.Summary(), Class: "instr-fault", Nontrivial: true, Coq: "CProg [] (Outcome [] (OOk []))"})
+				w.GoFail(id, fmt.Sprintf("instruction fault at poll %d/%d: %s", k, polls, what))
+			}
+		}
+	}
+}
+
+func isInjected(v luagen.OVal) bool { return v.Kind == "fault" && v.K == 98 }
+
+func instrPredicates(base, out *luagen.Outcome) string {
+	delivered := 0
+	for _, row := range out.Trace {
+		for _, v := range row {
+			if isInjected(v) {
+				delivered++
+			}
+		}
+	}
+	uncaught := !out.Ok && isInjected(out.Err)
+	if uncaught {
+		delivered++
+	}
+	if delivered > 1 {
+		return fmt.Sprintf("the injected error was observed %d times", delivered)
+	}
+	if uncaught {
+		if len(out.Trace) > len(base.Trace) {
+			return "an uncaught fault produced more side effects than the fault-free run"
+		}
+		for i, row := range out.Trace {
+			if len(row) != len(base.Trace[i]) {
+				return fmt.Sprintf("an uncaught fault changed emitted row %d", i)
+			}
+			for j := range row {
+				if row[j].String() != base.Trace[i][j].String() {
+					return fmt.Sprintf("an uncaught fault changed emitted row %d", i)
+				}
+			}
+		}
+	}
+	return ""
 }
